@@ -118,7 +118,10 @@ type poolMsg struct {
 	own bool
 }
 
+// signKey identifies "a decided object": the object of one duty. The same object root may legitimately
+// recur in another duty (a sync-committee message over an unchanged head, the fixture's constant block).
 type signKey struct {
+	slot phase0.Slot
 	root [32]byte
 	dt   phase0.DomainType
 }
@@ -133,7 +136,7 @@ type world struct {
 	last       phase0.Slot // slot of the most recent start attempt
 	startedAny bool
 	pool       []poolMsg
-	signed     map[signKey]int // (object root, domain) -> op of the first signature
+	signed     map[signKey]int // (duty slot, object root, domain) -> op of the first signature
 	sent       map[string]bool // agree bookkeeping: type/height/round/member
 	log        []string
 	cls        map[string]bool
@@ -327,7 +330,7 @@ func (w *world) judge(op, fromSeq int, opKind string, foreign bool, startDuty *s
 			w.failf("post-sig-not-in-decided-value", "op %d: signed object %x (domain %x) is not derivable from the decided value", op, r.ObjRoot[:6], r.DomainType[:])
 			return
 		}
-		k := signKey{r.ObjRoot, r.DomainType}
+		k := signKey{w.cur.slot, r.ObjRoot, r.DomainType}
 		if first, dup := w.signed[k]; dup {
 			sig := "post-sig-repeated"
 			if viaCert {
